@@ -27,15 +27,26 @@ import (
 	"strings"
 	"time"
 
+	"github.com/enfein/mieru/v3/pkg/appctl/appctlpb"
 	"github.com/enfein/mieru/v3/pkg/protocol"
 	"github.com/enfein/mieru/v3/pkg/replay"
+	"google.golang.org/protobuf/proto"
 	"verifharness/vh"
 )
 
+// Sig > 0: traffic (IsDuplicate). Sig < 0: not traffic but a management reload (Mux.SetServerUsers)
+// installing users variant -Sig, after sleeping Dt.
 type opT struct {
 	Sig int    `json:"sig"`
 	Tag string `json:"tag"`
 	Dt  int64  `json:"dt_ns"`
+}
+
+func (o opT) reload() int {
+	if o.Sig < 0 {
+		return -o.Sig
+	}
+	return 0
 }
 
 type histCase struct {
@@ -64,6 +75,22 @@ func data(k int) []byte {
 	sigData[k] = b
 	hashToSig[h.Sum64()] = k
 	return b
+}
+
+var customID = map[string]int{}
+
+// registerData gives a signature number to an arbitrary presented byte string (distinct strings, distinct numbers).
+func registerData(b []byte) int {
+	if id, ok := customID[string(b)]; ok {
+		return id
+	}
+	id := 200000 + len(customID)
+	customID[string(b)] = id
+	sigData[id] = append([]byte(nil), b...)
+	h := fnv.New64a()
+	h.Write(b)
+	hashToSig[h.Sum64()] = id
+	return id
 }
 
 func tagHex(t string) string {
@@ -128,6 +155,9 @@ func conflict(a, b string) bool { return a == "" || b == "" || a != b }
 func judge(capacity int, ival int64, ops []opT, at []int64, res []bool) (sig, what string) {
 	n := len(ops)
 	for i := 0; i < n; i++ {
+		if ops[i].reload() > 0 {
+			continue // a reload is not traffic: the ideal record is not affected by it
+		}
 		x := ops[i].Sig
 		if res[i] {
 			// never a false positive: the same signature was presented before (with a tag that conflicts)
@@ -157,8 +187,11 @@ func judge(capacity int, ival int64, ops []opT, at []int64, res []bool) (sig, wh
 				break
 			}
 			distinct := map[int]bool{}
+			reloads := 0
 			for k := j + 1; k < i; k++ {
-				if ops[k].Sig != x {
+				if ops[k].reload() > 0 {
+					reloads++
+				} else if ops[k].Sig != x {
 					distinct[ops[k].Sig] = true
 				}
 			}
@@ -166,8 +199,12 @@ func judge(capacity int, ival int64, ops []opT, at []int64, res []bool) (sig, wh
 				break
 			}
 			if ops[i].Tag == "" || (!res[j] && conflict(ops[j].Tag, ops[i].Tag)) {
-				return "miss-within-bounds", fmt.Sprintf("call %d (signature %d, tag %q) is not reported although call %d presented it %d ns earlier (interval %d ns) from tag %q, accepted=%v, with %d other distinct signatures in between (capacity %d)",
-					i, x, ops[i].Tag, j, at[i]-at[j], ival, ops[j].Tag, !res[j], len(distinct), capacity)
+				sg := "miss-within-bounds"
+				if reloads > 0 {
+					sg = "miss-within-bounds-across-reload"
+				}
+				return sg, fmt.Sprintf("call %d (signature %d, tag %q) is not reported although call %d presented it %d ns earlier (interval %d ns) from tag %q, accepted=%v, with %d other distinct signatures and %d management reload(s) in between (capacity %d)",
+					i, x, ops[i].Tag, j, at[i]-at[j], ival, ops[j].Tag, !res[j], len(distinct), reloads, capacity)
 			}
 		}
 	}
@@ -175,7 +212,33 @@ func judge(capacity int, ival int64, ops []opT, at []int64, res []bool) (sig, wh
 }
 
 type drv struct {
-	r *vh.Run
+	r   *vh.Run
+	mux *protocol.Mux // a server Mux that is never started: only its management entry point SetServerUsers is used
+}
+
+// usersVariant: the user tables a management reload installs. 1 = unchanged, 2 = another user added,
+// 3 = a user removed, 4 = the victim's quota changed, 5 = a password of another user changed.
+func usersVariant(v int) map[string]*appctlpb.User {
+	u := func(n, p string) *appctlpb.User { return &appctlpb.User{Name: proto.String(n), Password: proto.String(p)} }
+	m := map[string]*appctlpb.User{"alice": u("alice", "alice-password"), "bob": u("bob", "bob-secret-2")}
+	switch v {
+	case 2:
+		m["carol"] = u("carol", "carol-pw")
+	case 3:
+		delete(m, "bob")
+	case 4:
+		m["alice"].Quotas = []*appctlpb.Quota{{Days: proto.Int32(1), Megabytes: proto.Int32(int32(100 + v))}}
+	case 5:
+		m["bob"] = u("bob", "bob-new-secret")
+	}
+	return m
+}
+
+func (d *drv) reload(v int) {
+	if d.mux == nil {
+		d.mux = protocol.NewMux(false)
+	}
+	d.mux.SetServerUsers(usersVariant(v))
 }
 
 // runH executes one history on a fresh cache and emits an H line.
@@ -277,6 +340,12 @@ func (d *drv) calls(c *replay.ReplayCache, capacity int, ival int64, ops []opT, 
 		sleepNs(o.Dt)
 		t += o.Dt
 		at[i] = t
+		if o.reload() > 0 {
+			d.reload(o.reload())
+			r.Case(fmt.Sprintf("R %d", o.reload()), "R "+stateLine(c))
+			r.Count("reload-op")
+			continue
+		}
 		now := time.Now().UnixNano()
 		res[i] = c.IsDuplicate(data(o.Sig), o.Tag)
 		r.Case(fmt.Sprintf("D %d %s %d", o.Sig, tagHex(o.Tag), now), string([]byte{b01(res[i])})+" "+stateLine(c))
@@ -304,10 +373,71 @@ func main() {
 	r := vh.Start("c06")
 	defer r.Finish()
 	d := &drv{r: r}
-	r.Rep.Rule = "real ReplayCache under faketime. (1) corpus: the tag-overwrite witness and hand-written rotation/expiry boundaries; (2) exhaustive enumeration of all histories up to a length bound over signatures and tags up to renaming x 3 time steps, two step sets (one crossing, one exactly on the rotation/expiry thresholds), capacities 1..5 (capacity > number of signatures never rotates by size); (3) random call-by-call histories, capacities 0..8, up to 12 signatures, 4 tags, steps around 0, interval/2, interval, 2*interval and long idle gaps; (4) caches with the process-wide capacity/interval: rotation by time, carry-over, expiry of both generations, long idle gaps (and, thorough, a fill to capacity). Non-trivial/distinct = distinct (capacity, result vector, final sizes) among histories in which a duplicate was reported or a rotation happened."
+	r.Rep.Rule = "real ReplayCache under faketime. (1) corpus: the tag-overwrite witness and hand-written rotation/expiry boundaries; (2) exhaustive enumeration of all histories up to a length bound over signatures and tags up to renaming x 3 time steps, two step sets (one crossing, one exactly on the rotation/expiry thresholds), capacities 1..5 (capacity > number of signatures never rotates by size); (3) random call-by-call histories, capacities 0..8, up to 12 signatures, 4 tags, steps around 0, interval/2, interval, 2*interval and long idle gaps; (G) the two process-wide cache objects themselves, driven by traffic interleaved with management reloads (Mux.SetServerUsers with unchanged users, a user added, a user removed, the victim's quota changed, a password of another user changed, repeated reloads) at +0 .. +1500 s, hand-written and random; (4) caches with the process-wide capacity/interval: rotation by time, carry-over, expiry of both generations, long idle gaps (and, thorough, a fill to capacity); (5) about 400 patterned 16-byte inputs (shared fixed prefixes of 0..16 bytes as NONCE_TYPE_FIXED produces them, all single-bit neighbours of one string, one-position differences): each distinct string must be new, and be found when presented again. Non-trivial/distinct = distinct (capacity, result vector, final sizes) among histories in which a duplicate was reported or a rotation happened."
 	start := time.Now()
 	if start.Year() != 2009 {
 		r.Rep.Notes = map[string]string{"clock": "not running under faketime (time.Now() is " + start.String() + ")"}
+	}
+
+	// ---------------- (G) the two process-wide objects themselves, with management reloads interleaved.
+	// Must come first: they were created at package initialisation = program start under faketime and nothing
+	// has used them yet, so the model can start them from new_cache(Consts) at the start instant.
+	rl := func(v int) opT { return opT{Sig: -v} }
+	rlAt := func(v int, dt int64) opT { return opT{Sig: -v, Dt: dt} }
+	sec := int64(time.Second)
+	nextSig := 1000
+	for _, which := range []string{"stream", "packet"} {
+		pc := protocol.VerifStreamReplayCache()
+		t1, t2 := "", ""
+		if which == "packet" {
+			pc = protocol.VerifPacketReplayCache()
+			t1, t2 = "198.51.100.7:40000", "203.0.113.9:5353"
+		}
+		capacity, ival := pc.VerifCapacity(), pc.VerifExpireIntervalNanos()
+		gline := func() {
+			r.Case(fmt.Sprintf("G %s %d", which, start.UnixNano()), fmt.Sprintf("%d %d %s", capacity, ival, stateLine(pc)))
+		}
+		gline()
+		d.calls(pc, capacity, ival, []opT{
+			{Sig: 1, Tag: t1}, rl(1), {Sig: 1, Tag: t2}, // reload with unchanged users right after acceptance
+			{Sig: 2, Tag: t1, Dt: sec}, rl(2), rl(3), {Sig: 1, Tag: t2, Dt: sec}, {Sig: 2, Tag: t2}, // user added, user removed
+			rlAt(4, 100*sec), {Sig: 1, Tag: t2}, {Sig: 3, Tag: t1}, // the victim's quota changed
+			rl(5), rl(1), rl(1), rl(1), {Sig: 3, Tag: t2}, // repeated reloads
+			{Sig: 1, Tag: t2, Dt: 256 * sec}, // +358 s: still inside the retention
+			{Sig: 4, Tag: t1, Dt: 3 * sec}, rl(1), {Sig: 1, Tag: t2}, // rotation by time, then reload, x found in previous
+			rl(2), {Sig: 4, Tag: t2}, rlAt(3, 200*sec), {Sig: 4, Tag: t2}, {Sig: 1, Tag: t2},
+			{Sig: 5, Tag: t1}, rl(4), {Sig: 5, Tag: t2, Dt: sec},
+			rlAt(1, 800*sec), {Sig: 1, Tag: t2}, {Sig: 5, Tag: t2}, {Sig: 5, Tag: t2}, // both generations long expired
+		}, "reload-"+which)
+		nh := 30
+		if r.Thorough() {
+			nh = 300
+		}
+		steps := []int64{0, 0, 0, 0, sec, 50 * sec, 120 * sec, 359 * sec, 361 * sec, 721 * sec}
+		for i := 0; i < nh; i++ {
+			g := r.Rng.Fork()
+			n := g.Range(3, 25)
+			nsig := g.Range(1, 5)
+			ops := make([]opT, n)
+			for k := range ops {
+				dt := steps[g.Intn(len(steps))]
+				if g.Intn(4) == 0 {
+					ops[k] = rlAt(g.Range(1, 5), dt)
+					continue
+				}
+				tg := t1
+				if g.Bool() {
+					tg = t2
+				}
+				ops[k] = opT{Sig: nextSig + g.Range(1, nsig), Tag: tg, Dt: dt}
+			}
+			nextSig += 8
+			gline()
+			d.calls(pc, capacity, ival, ops, "reload-random-"+which)
+		}
+	}
+	if d.mux != nil {
+		d.mux.Close() // stops its maintenance ticker, which would otherwise wake up every 5 virtual seconds below
 	}
 
 	// ---------------- (0) NewCache panics, disabled cache
@@ -468,17 +598,53 @@ func main() {
 			r.Case(fmt.Sprintf("P %s %d", which, time.Now().UnixNano()), fmt.Sprintf("%d %d %d", capacity, ival, exp))
 			d.calls(c, capacity, ival, ops, "process-wide-"+which)
 		}
-		// the process-wide object itself (created at package initialisation = program start under faketime)
-		if time.Since(start) < time.Duration(ival) {
-			// nothing slept long enough yet: cannot happen after the scenarios above; kept for clarity
-		}
-		before := pc.IsDuplicate(data(900001), t1)
-		again := pc.IsDuplicate(data(900001), t2)
-		if before || !again {
-			r.Fail("process-wide-cache-basic", fmt.Sprintf("%s cache: first presentation reported %v, replay from another tag reported %v", which, before, again), nil)
-		}
-		r.Count("process-wide-object")
 	}
+	// ---------------- (5) patterned inputs: the signature must tell apart 16-byte strings that share a long prefix
+	// (NONCE_TYPE_FIXED fixes up to 12 leading nonce bytes), that differ in one bit only, or in one position only
+	{
+		fixed := []byte("GET / HTTP/1.1\r\n")
+		var ops []opT
+		seen := map[int]bool{}
+		add := func(b []byte) {
+			id := registerData(b)
+			if !seen[id] {
+				seen[id] = true
+				ops = append(ops, opT{Sig: id, Tag: "10.0.0.1:1"})
+			}
+		}
+		for p := 0; p <= 16; p++ {
+			nv := 12
+			if p >= 15 {
+				nv = 2 // only 256 / 1 distinct strings exist
+			}
+			for k := 0; k < nv; k++ {
+				b := r.Rng.Bytes(16)
+				copy(b, fixed[:p])
+				add(b)
+			}
+		}
+		base := r.Rng.Bytes(16)
+		add(base)
+		for bit := 0; bit < 128; bit++ {
+			b := append([]byte(nil), base...)
+			b[bit/8] ^= 1 << (bit % 8)
+			add(b)
+		}
+		for pos := 0; pos < 16; pos++ { // all-zero except one byte; and a counter in each position
+			b := make([]byte, 16)
+			b[pos] = 0xff
+			add(b)
+			c := append([]byte(nil), fixed[:16]...)
+			c[pos] = byte(pos + 1)
+			add(c)
+		}
+		fresh := len(ops)
+		for i := 0; i < fresh; i++ { // then every one of them again from another address: all must be found
+			ops = append(ops, opT{Sig: ops[i].Sig, Tag: "10.0.0.2:1"})
+		}
+		d.stepwise(2*fresh, 360*sec, ops, "patterned-inputs")
+	}
+
 	if r.Thorough() {
 		// rotation by size at the real capacity (oracle only: the list model is quadratic at this size)
 		pc := protocol.VerifPacketReplayCache()
